@@ -353,6 +353,18 @@ func (e *Eval) compile(node ast.Node) error {
 	case *ast.FunctionDefinition:
 
 		//
+		// The compiler can reach one definition several times - the
+		// block of a case is compiled once for each value of the case.
+		// The result is the same every time, so we keep it: compiling
+		// the body again and again makes the work grow exponentially
+		// with the depth of nested definitions.
+		//
+		if fn, ok := e.compiled[node]; ok {
+			e.functions[node.Token.Literal] = fn
+			return nil
+		}
+
+		//
 		// Hack: Reset the instructions.
 		//
 		// What we're doing here is ensuring that
@@ -444,6 +456,7 @@ func (e *Eval) compile(node ast.Node) error {
 
 		// And save this function-reference by name.
 		e.functions[node.Token.Literal] = x
+		e.compiled[node] = x
 
 		// Now we can restore our bytecode to what it was
 		// before we started to deal with the body.
